@@ -5,6 +5,6 @@ CONSTANTS
   Full = TRUE
   MaxSteps = 14
   Subs <- SubsAll
-  MaxNote = 6
+  MaxNote = 10
   Fix <- NoFix
 CHECK_DEADLOCK FALSE
